@@ -13,6 +13,7 @@ import PtProofs.BasicIndexLemmas
 import PtProofs.StackConcatLemmas
 import PtProofs.ReshapeLemmas
 import PtProofs.PadLemmas
+import PtProofs.EinsumLowerLemmas
 namespace Pt
 
 /-! ## re-exported slice / linearisation theorems (statements in SliceLemmas / BasicLemmas) -/
@@ -247,6 +248,29 @@ theorem pad_sound (a : Arr Val) (widths : List (Nat × Nat)) (cvals : List (SExp
           (eval (idxEnv i binds) c.1, eval (idxEnv i binds) c.2)) a).get i :=
   padExpr_eval ⟨hw, hc, hb, hin0, boundsOK_of_map hw hc hb hbounds, hi⟩
 
+/-! ## einsum -/
+
+/-- `map_einsum`: for EVERY einsum in explicit mode — any number of operands,
+    repeated axes within an operand (diagonals), any output order, any number of
+    reduction axes — with operand axis lengths consistent up to NumPy-style
+    length-1 broadcasting, and all operand values, the lowered expression
+    evaluated at any in-bounds output index is the einsum
+    `Σ_r Π_k args[k][…]` (`Spec.einsumV`).  The reduction bounds are the EINSUM
+    axis lengths: taking a bound from an operand in which the axis is a
+    broadcast-unit axis sums one term only (see the example below). -/
+theorem lower_einsum_correct (descrs : List (List EAxis)) (nout : Nat) (args : List (Arr Val))
+    (i : Idx)
+    (hlen : descrs.length = args.length) (hne : args ≠ [])
+    (hwf : ∀ p ∈ descrs.zip args, p.1.length = p.2.shape.length)
+    (hbc : ∀ p ∈ descrs.zip args, ∀ q ∈ p.1.zip p.2.shape,
+      q.2 = Spec.axisLen (Spec.axisLenTable descrs (args.map (·.shape))) q.1 ∨ q.2 = 1)
+    (helem : ∀ p ∈ descrs.zip args, ∀ j, EAxis.elem j ∈ p.1 → j < nout)
+    (hred : ∀ j, j < Spec.numRed descrs → EAxis.red j ∈ descrs.flatMap id)
+    (hi : inB (Spec.einsumV descrs nout args).shape i = true) :
+    eval (idxEnv i (Lower.inBinds args)) (Lower.einsum descrs (args.map (·.shape)))
+      = (Spec.einsumV descrs nout args).get i :=
+  einsum_eval ⟨hlen, hne, hwf, hbc, helem, hred, hi⟩
+
 /-! ## non-vacuity: concrete instances satisfying the hypotheses -/
 
 /-- a 2×3 test array with entries 1..6 -/
@@ -318,5 +342,58 @@ example : (Spec.padConst [(1, 2), (2, 1)] [(.i 10, .i 20), (.i 30, .i 40)] exArr
 example : (evalIL (Lower.padExpr [(1, 2), (2, 1)] [(.int 10, .int 20), (.int 30, .int 40)]
       [.var "in_1", .int 5]) [5, 6] [("in_0", exArr), ("in_1", exPadScalar)]).toList
     = (Spec.padConst [(1, 2), (2, 1)] [(.i 10, .i 20), (.i 30, .i 40)] exArr).toList := by decide
+
+-- einsum: matmul, trace, broadcast operand, outer product, three operands
+def exM23 : Arr Val := exArr
+def exM34 : Arr Val := Arr.ofList [3, 4] ((List.range 12).map fun (k : Nat) => Val.i ((k + 1 : Nat) : Int)) .undef
+def exM13 : Arr Val := Arr.ofList [1, 3] [.i 10, .i 20, .i 30] .undef
+def exM33 : Arr Val := Arr.ofList [3, 3] ((List.range 9).map fun (k : Nat) => Val.i ((k + 1 : Nat) : Int)) .undef
+def exV2 : Arr Val := Arr.ofList [2] [.i 5, .i 7] .undef
+def exV3 : Arr Val := Arr.ofList [3] [.i 1, .i 2, .i 3] .undef
+/-- all hypotheses of `lower_einsum_correct` except the index, decidable -/
+def einsumHyp (descrs : List (List EAxis)) (nout : Nat) (args : List (Arr Val)) : Prop :=
+  descrs.length = args.length ∧ args ≠ []
+  ∧ (∀ p ∈ descrs.zip args, p.1.length = p.2.shape.length)
+  ∧ (∀ p ∈ descrs.zip args, ∀ q ∈ p.1.zip p.2.shape,
+      q.2 = Spec.axisLen (Spec.axisLenTable descrs (args.map (·.shape))) q.1 ∨ q.2 = 1)
+  ∧ (∀ p ∈ descrs.zip args, ∀ j ∈ List.range 8, EAxis.elem j ∈ p.1 → j < nout)
+  ∧ (∀ j ∈ List.range (Spec.numRed descrs), EAxis.red j ∈ descrs.flatMap id)
+instance (descrs nout args) : Decidable (einsumHyp descrs nout args) := by
+  unfold einsumHyp; infer_instance
+def einsumAgrees (ins : List (List Char)) (out : List Char) (args : List (Arr Val)) : Bool :=
+  let d := Lower.einsumDescrs ins out
+  let sp := Spec.einsumV d out.length args
+  (evalIL (Lower.einsum d (args.map (·.shape))) sp.shape (Lower.inBinds args)).toList == sp.toList
+example : einsumHyp (Lower.einsumDescrs ["ij".toList, "jk".toList] "ik".toList) 2 [exM23, exM34]
+    ∧ einsumAgrees ["ij".toList, "jk".toList] "ik".toList [exM23, exM34] = true
+    ∧ (Spec.einsumV (Lower.einsumDescrs ["ij".toList, "jk".toList] "ik".toList) 2
+        [exM23, exM34]).toList = [.i 38, .i 44, .i 50, .i 56, .i 83, .i 98, .i 113, .i 128] := by
+  decide
+example : einsumHyp (Lower.einsumDescrs ["ii".toList] "".toList) 0 [exM33]
+    ∧ einsumAgrees ["ii".toList] "".toList [exM33] = true
+    ∧ (Spec.einsumV (Lower.einsumDescrs ["ii".toList] "".toList) 0 [exM33]).toList = [.i 15] := by
+  decide
+example : einsumHyp (Lower.einsumDescrs ["ij".toList, "ij".toList] "i".toList) 1 [exM23, exM13]
+    ∧ einsumAgrees ["ij".toList, "ij".toList] "i".toList [exM23, exM13] = true
+    ∧ (Spec.einsumV (Lower.einsumDescrs ["ij".toList, "ij".toList] "i".toList) 1
+        [exM23, exM13]).toList = [.i 140, .i 320] := by decide
+example : einsumHyp (Lower.einsumDescrs ["i".toList, "j".toList] "ji".toList) 2 [exV2, exV3]
+    ∧ einsumAgrees ["i".toList, "j".toList] "ji".toList [exV2, exV3] = true
+    ∧ (Spec.einsumV (Lower.einsumDescrs ["i".toList, "j".toList] "ji".toList) 2
+        [exV2, exV3]).toList = [.i 5, .i 7, .i 10, .i 14, .i 15, .i 21] := by decide
+example : einsumHyp (Lower.einsumDescrs ["ij".toList, "jk".toList, "k".toList] "i".toList) 1
+      [exM23, exM34, Arr.ofList [4] [.i 1, .i 0, .i 2, .i 1] .undef]
+    ∧ einsumAgrees ["ij".toList, "jk".toList, "k".toList] "i".toList [exM23, exM34, Arr.ofList [4] [.i 1, .i 0, .i 2, .i 1] .undef]
+        = true := by decide
+/-- the mutant "bound of `_r0` from the first operand that mentions it": for
+    `ij,ij->i` with a (2,1) first operand the bound would be 1 instead of 3 and
+    one term only is summed — not the einsum -/
+example : (evalIL (.reduce .sum "_r0" (.int 0) (.int 1)
+      (.mul (.sub "_in0" [.idx 0, .int 0]) (.sub "_in1" [.idx 0, .var "_r0"]))) [2]
+      (Lower.inBinds [Arr.ofList [2, 1] [.i 2, .i 3] .undef, exM23])).toList = [.i 2, .i 12]
+    ∧ (Spec.einsumV (Lower.einsumDescrs ["ij".toList, "ij".toList] "i".toList) 1
+        [Arr.ofList [2, 1] [.i 2, .i 3] .undef, exM23]).toList = [.i 12, .i 45]
+    ∧ einsumAgrees ["ij".toList, "ij".toList] "i".toList [Arr.ofList [2, 1] [.i 2, .i 3] .undef, exM23] = true := by
+  decide
 
 end Pt
